@@ -79,6 +79,7 @@ type Violation struct {
 type World struct {
 	Tape     *Tape
 	Scenario string
+	Pre      any // result of the scenario's Pre phase
 
 	mu     sync.Mutex // protects tasks/ntasks growth and violations; always used inside hideBegin/hideEnd
 	tasks  [maxTasks]*Task
